@@ -89,10 +89,8 @@ PROBES = [
     ("annassign-parenthesised-name-simple", "m", "(x): int = 1\n"),
     ("subscript-single-starred-not-tuple", "m", "x[*a]\n"),
     ("match-subject-single-trailing-comma", "m", "match x,:\n case _: pass\n"),
-    ("fstring-triple-quote-in-field", "m", "x = f'''{\"\"\"a\"b\"\"\"}'''\n"),
     ("string-prefix-uppercase-u-kind", "m", "U'a'\n"),
-    ("fstring-concat-empty-literal-kept", "m", "f'{x}' ''\n"),
-    ("fstring-concat-u-kind-not-in-format-spec", "m", "u'a' f'{x:>3}'\n"),
+    ("fstring-concat-u-kind-not-in-format-spec", "m", "u'a' f'{x:>{w}}'\n"),
     ("type-alias-not-at-line-start", "m", "pass; type X = int\n"),
     ("with-item-starred-target", "m", "with x as *a: pass\n"),
 ]
@@ -570,7 +568,9 @@ def streams(ctx):
     q = ctx.quick
     # 1. deterministic probes of the listed findings + a regression corpus
     reqs = [refsweep.make_request(m, 1, s) for _, m, s in PROBES]
-    corpus = ["match(x)\n", "match (x):\n case 1: pass\n", "case = 1\n", "type = 1\n", "print(type(x))\n", "type: int = 1\n",
+    corpus = ["x = f'''{\"\"\"a\"b\"\"\"}'''\n", "f'{\"x\" \"\"\"eric\"s\"\"\" \"y\"}'\n", "f'{x}' ''\n", "'' f'{x}'\n", "f'' ''\n",
+              "u'a' f'{x:>3}'\n", "f'{x:\\x41}'\n", "f'{x = }'\n",       # repaired by c09f12b, dfa74fc, 40fcb23, 897a1b6: regressions are violations
+              "match(x)\n", "match (x):\n case 1: pass\n", "case = 1\n", "type = 1\n", "print(type(x))\n", "type: int = 1\n",
               "match: int\n", "match: dict[str, int] = {}\n", "match -x:\n case 1: pass\n", "match *a, b:\n case 1: pass\n",
               "type X = int\n", "type X[T: int, *Ts, **P] = dict[T, P]\n", "def f[T](a: T) -> T: pass\n",
               "class C[T](B, metaclass=M): pass\n", "type type = type\n", "type match[case] = case\n",
